@@ -187,9 +187,11 @@ func (p *Prog) runBoundedGoTest(c *BoundedCheck) *BoundedResult {
 	ov := filepath.Join(tmp, "ov.json")
 	b, _ := json.Marshal(map[string]any{"Replace": map[string]string{filepath.Join(pkgDir, "zz_govc_bounded_test.go"): src}})
 	os.WriteFile(ov, b, 0o644)
-	ctx, cancel := context.WithTimeout(context.Background(), 300*time.Second)
+	// generous limits: from a fresh restore the build cache is cold (cgo sqlite3: about a minute on an idle machine)
+	// and the machine may be busy; a bounded test that is cut short makes the run undecided (exit 2)
+	ctx, cancel := context.WithTimeout(context.Background(), 1200*time.Second)
 	defer cancel()
-	cmd := exec.CommandContext(ctx, "go", "test", "-v", "-overlay", ov, "-vet=off", "-count=1", "-timeout", "240s", "-run", "^"+c.TestName+"$", ".")
+	cmd := exec.CommandContext(ctx, "go", "test", "-v", "-overlay", ov, "-vet=off", "-count=1", "-timeout", "900s", "-run", "^"+c.TestName+"$", ".")
 	cmd.Dir = pkgDir
 	cmd.Env = append(os.Environ(), "GOFLAGS=-mod=mod", "GOPROXY=off", "GOSUMDB=off", "GOTOOLCHAIN=local")
 	out, _ := cmd.CombinedOutput()
